@@ -86,6 +86,17 @@ type run struct {
 	Finish      [][3]int  `json:"finish,omitempty"`
 	Deliver     [][3]int  `json:"deliver,omitempty"`
 	VarTypes    []vartype `json:"vartypes,omitempty"`
+	Inst        []instev  `json:"inst,omitempty"`
+}
+
+// one step of the instantiation cache of generic functions (hook H4)
+type instev struct {
+	Kind  string   `json:"kind"`
+	Fn    string   `json:"fn"`
+	Mod   string   `json:"mod"`
+	Key   string   `json:"key"`
+	Nerr  int      `json:"nerr"`
+	Cache []string `json:"cache"`
 }
 
 type answer struct {
@@ -261,6 +272,12 @@ func once(req *request) (r run) {
 			}
 		}
 		defer func() { parser.VerifHook = nil }()
+		parser.VerifInstHook = func(kind, fn, module, key string, nerr int, cache []string) {
+			if len(r.Inst) < 4000 {
+				r.Inst = append(r.Inst, instev{Kind: kind, Fn: fn, Mod: rel(req.Dir, module), Key: key, Nerr: nerr, Cache: append([]string{}, cache...)})
+			}
+		}
+		defer func() { parser.VerifInstHook = nil }()
 	}
 	var module *ast.Module
 	func() {
